@@ -46,7 +46,8 @@ CHECKS = {
         "module": "Vanguard.Props.C08", "namespace": "Vanguard.C08", "streams": ["chunk"],
         "partial": "segmentation independence is proved for the primitive exact reader (io.ReadFull/CopyN over adversarial chunkings) and for the "
                    "transcoder's message reader (the sequence of enveloped request messages and its final condition); "
-                   "for the read/write adapters (handler read-buffer sizes, backend write pieces, flushes) it is checked metamorphically on model and implementation",
+                   "handler read-buffer sizes are proved irrelevant for the re-encoding reader (any sizes >= 1, same bytes and final error); "
+                   "for the re-framing reader's read sizes and for backend write pieces and flushes it is checked metamorphically on model and implementation",
         "assumptions": E2E_ASSUME,
     },
     "C09": {
